@@ -35,7 +35,7 @@ let () = iter_lines (fun line ->
       Printf.printf "%s\t%s\n" (b2s (lint_says_parsed r)) (res_s (lint_parsed r))
   | ["X"; v] ->
       let r = if v = "OK" then ROk else RErr CLib in
-      Printf.printf "%d %s\n" (int_of_n (exit_code r)) (b2s (prints_error r))
+      Printf.printf "%d %s\n" (int_of_n (exit_code gen_cli_err_status r)) (b2s (prints_error r))
   | ["A"] ->
       print_endline (String.concat " " (List.init 128 (fun c -> string_of_int (int_of_n (lower_ascii (n_of_int c))))))
   | _ -> print_endline "BADLINE")
